@@ -11,6 +11,7 @@ ALL_CHAN = ["spsc_b", "spsc_b_async", "mpsc_b", "mpsc_b_async", "mpsc_u", "mpsc_
             "mpmc_rv_async", "oneshot"]
 BOUNDED = ["spsc_b", "spsc_b_async", "mpsc_b", "mpsc_b_async", "mpmc_b", "mpmc_b_async", "spsc_rv", "mpsc_rv", "mpmc_rv",
            "spsc_rv_async", "mpsc_rv_async", "mpmc_rv_async", "oneshot"]
+BATCH_MP = ["mpsc_b", "mpsc_b_async", "mpmc_b", "mpmc_b_async", "mpsc_u", "mpmc_u"]
 ASYNC = [f for f in ALL_CHAN if f.endswith("_async")] + ["oneshot"]
 
 
@@ -124,6 +125,55 @@ def chan_sched(rep, flavours, runs, caps, shapes=("drain", "leave", "prefill"), 
     return r
 
 
+def chan_sys(rep, flavours, d, smax, caps=(1,), shapes=("drain",), seeds=(1,), producers=2, consumers=1, items=1,
+             label="chan-sys"):
+    """Systematic schedules: for small fixed scenarios every order of initial priorities x every set of d-1 priority
+    change points (thread, thread-local step <= smax) is run (the PCT schedule space, enumerated instead of sampled).
+    The program is fixed per scenario, so equal histories are validated once."""
+    import concurrent.futures as cf
+    parts = max(1, int(os.environ.get("VERIF_JOBS", "8")))
+    wd = C.workdir()
+    base = os.path.join(wd, "%s_%d" % (label, time.time_ns()))
+
+    def one(i):
+        out = "%s_%d.ndjson" % (base, i)
+        st = C.run_fv(["chan-sys", "--flavours", ",".join(flavours), "--caps", ",".join(map(str, caps)), "--shapes",
+                       ",".join(shapes), "--scenario-seeds", ",".join(map(str, seeds)), "--d", d, "--smax", smax,
+                       "--producers", producers, "--consumers", consumers, "--items", items, "--part", i, "--parts", parts,
+                       "--out", out], timeout=3000)
+        return out, st
+    with cf.ThreadPoolExecutor(parts) as ex:
+        res = list(ex.map(one, range(parts)))
+    tot = {}
+    seen, uniq = set(), []
+    for out, st in res:
+        for k, v in st.items():
+            if isinstance(v, int) and k not in ("d", "smax"):
+                tot[k] = tot.get(k, 0) + v
+        for h in C.split_histories(out):
+            key = "\n".join(h)
+            if key not in seen:
+                seen.add(key)
+                uniq.append(h)
+        os.unlink(out)
+    tot.update(driver=label, d=d, smax=smax, distinct_histories=len(uniq), flavours=list(flavours), caps=list(caps),
+               shapes=list(shapes), scenario_seeds=list(seeds))
+    rep.extra.setdefault("driver_stats", []).append(tot)
+    rep.extra.setdefault("systematic", []).append(
+        {"label": label, "space": "all priority orders x all sets of %d change points at thread-local steps 1..%d" % (d - 1, smax),
+         "scenarios": len(flavours) * len(caps) * len(shapes) * len(seeds), "runs": tot.get("runs", 0), "exhaustive_in_space": True})
+    if tot.get("stuck", 0) or tot.get("step_limit", 0):
+        rep.inconclusive.append("%s: %d runs stuck in the OS, %d hit the step limit (not judged)" % (
+            label, tot.get("stuck", 0), tot.get("step_limit", 0)))
+    path = base + "_uniq.ndjson"
+    with open(path, "w") as f:
+        for h in uniq:
+            f.write("\n".join(h) + "\n")
+    r = validate_chan(rep, path, label)
+    os.unlink(path)
+    return r
+
+
 def chan_mc(rep, tier, kinds=("q", "rv", "os")):
     deps = ["ChanA.tla"]
     for k in kinds:
@@ -138,6 +188,7 @@ CHAN_ASSUME = [
     "Layer A (specs/chan/ChanA.tla) is written from the property text; a history is judged only by TLC trace validation against it",
     "sequential consistency: yield points are the instrumented atomics/locks; a change that only weakens a memory ordering is invisible",
     "single-owner rule: a handle is used by one thread/task at a time; single-consumer receivers have one receive operation in flight",
+    "chan-sys: exhaustive only inside the stated schedule space (priority orders x change-point sets at thread-local steps <= smax) of the listed small scenarios",
     "memory safety is observed only through Drop counts of the payloads",
 ]
 
@@ -150,6 +201,14 @@ def C01(rep):
     chan_mc(rep, rep.tier)
     chan_seq(rep, ALL_CHAN, n(rep.tier, 24, 400), 60, [1, 2, 3, 5], ["mix", "batch", "async"], label="chan-seq")
     chan_sched(rep, ALL_CHAN, n(rep.tier, 40, 1500), [1, 2], seed_off=11)
+    # batch senders racing for runs of slots at the edge of the window (overshoot / tombstone paths)
+    chan_sched(rep, BATCH_MP, n(rep.tier, 60, 1500), [1, 2, 3], shapes=("batchrace",), strategies=("pct", "random", "pct5"),
+               seed_off=12, label="chan-sched-batchrace")
+    t = rep.tier
+    chan_sys(rep, ["mpsc_b", "mpmc_b"], 3, n(t, 10, 12), caps=(2,), shapes=("batchrace",), seeds=n(t, (1, 2), (1, 2, 3, 4)), items=3,
+             label="chan-sys-batch")
+    chan_sys(rep, ["mpsc_rv", "mpmc_rv", "mpsc_rv_async", "mpmc_rv_async", "mpsc_u", "mpmc_u"], 3, n(t, 8, 10),
+             seeds=n(t, (1,), (1, 2)), label="chan-sys-handoff")
     rep.assumptions += CHAN_ASSUME
 
 
@@ -160,6 +219,18 @@ def C05(rep):
                label="chan-sched-sync")
     chan_sched(rep, sync, n(rep.tier, 160, 4000), [1], strategies=("pct5", "random", "pct"), seed_off=707,
                label="chan-sched-cap1")
+    # consumers that take a quota and then either leave or keep their handle and wait for the producers:
+    # progress of a parked sender must not depend on further receives
+    chan_sched(rep, sync, n(rep.tier, 60, 3000), [2, 1, 3], shapes=("hold",), strategies=("pct", "random", "pct5"),
+               seed_off=808, label="chan-sched-hold")
+    # systematic PCT space of the smallest contended scenario (two producers, one item each, one consumer)
+    t = rep.tier
+    chan_sys(rep, ["mpsc_b"], 4, 8, caps=(1,), label="chan-sys-mpsc-d4")
+    chan_sys(rep, ["mpmc_b", "mpsc_rv", "mpmc_rv", "mpsc_u", "mpmc_u", "spsc_b", "spsc_rv"], n(t, 3, 4), n(t, 8, 10),
+             caps=n(t, (1,), (1, 2)), label="chan-sys-sync")
+    if t != "quick":
+        chan_sys(rep, ["mpsc_b", "mpmc_b"], 4, 10, caps=(1, 2), shapes=("drain", "hold", "leave"), seeds=(1, 2, 3), items=2,
+                 label="chan-sys-deep")
     rep.assumptions += CHAN_ASSUME + [
         "a blocked thread is one the scheduler finds parked with no unpark pending after a grace period; spurious unparks are legal and used only to wind a run down"]
 
@@ -176,6 +247,16 @@ def C03(rep):
     chan_mc(rep, rep.tier)
     chan_seq(rep, BOUNDED, n(rep.tier, 24, 400), 70, [1, 2, 3, 4], ["mix", "batch"], seed_off=202, label="chan-seq-bounded")
     chan_sched(rep, BOUNDED, n(rep.tier, 60, 2000), [1, 2, 3], shapes=("prefill", "drain"), seed_off=22)
+    # more parked receivers / pending futures than capacity, non-power-of-two capacities first
+    chan_seq(rep, [f for f in BOUNDED if f.endswith("_async")], n(rep.tier, 12, 300), 70, [3, 1, 5, 2], ["parked"],
+             seed_off=203, label="chan-seq-parked")
+    chan_sched(rep, ["mpmc_b", "mpmc_b_async", "mpmc_rv", "mpmc_rv_async"], n(rep.tier, 45, 1500), [3, 1, 2],
+               shapes=("manyrx",), strategies=("pct", "random", "pct5"), seed_off=23, label="chan-sched-manyrx")
+    chan_sched(rep, [f for f in BATCH_MP if "_b" in f], n(rep.tier, 45, 1500), [1, 2, 3], shapes=("batchrace",),
+               strategies=("pct", "random", "pct5"), seed_off=24, label="chan-sched-batchrace")
+    t = rep.tier
+    chan_sys(rep, ["mpsc_b", "mpmc_b"] + ([] if t == "quick" else ["mpsc_b_async", "mpmc_b_async"]), 3, n(t, 10, 12),
+             caps=n(t, (2,), (2, 3)), shapes=("prefill",), seeds=(1, 2, 3, 4), label="chan-sys-prefill")
     rep.assumptions += CHAN_ASSUME
 
 
@@ -183,6 +264,10 @@ def C04(rep):
     chan_mc(rep, rep.tier)
     chan_seq(rep, ALL_CHAN, n(rep.tier, 24, 400), 60, [1, 2, 5], ["close", "teardown"], seed_off=303, label="chan-seq-close")
     chan_sched(rep, ALL_CHAN, n(rep.tier, 40, 1500), [1, 2], shapes=("leave", "drain"), seed_off=33)
+    t = rep.tier
+    chan_sys(rep, ["mpsc_b", "mpmc_b", "mpsc_u", "mpmc_rv", "spsc_b", "oneshot"] +
+             ([] if t == "quick" else ["mpmc_u", "mpsc_rv", "spsc_rv", "mpsc_b_async", "mpmc_b_async"]), 3, n(t, 8, 10),
+             shapes=("leave",), seeds=n(t, (1, 2), (1, 2, 3, 4)), label="chan-sys-leave")
     rep.assumptions += CHAN_ASSUME
 
 
@@ -190,6 +275,11 @@ def C06(rep):
     chan_mc(rep, rep.tier)
     chan_seq(rep, ASYNC, n(rep.tier, 36, 600), 70, [1, 2, 3], ["async"], seed_off=404, label="chan-seq-async")
     chan_sched(rep, ASYNC, n(rep.tier, 60, 2000), [1, 2], seed_off=44, label="chan-sched-async")
+    chan_seq(rep, [f for f in ASYNC if f != "oneshot"], n(rep.tier, 36, 600), 70, [3, 1, 2], ["parked"], seed_off=405,
+             label="chan-seq-parked")
+    t = rep.tier
+    chan_sys(rep, ["mpsc_b_async", "mpmc_b_async", "mpsc_rv_async", "mpmc_rv_async", "mpmc_u_async", "mpsc_u_async",
+                   "spsc_b_async", "oneshot"], n(t, 3, 4), 8, seeds=n(t, (1,), (1, 2)), label="chan-sys-async")
     rep.assumptions += CHAN_ASSUME
 
 
@@ -198,6 +288,9 @@ def C09(rep):
     chan_seq(rep, ALL_CHAN, n(rep.tier, 24, 400), 50, [1, 2, 5], ["teardown", "batch", "async"], seed_off=505,
              label="chan-seq-teardown")
     chan_sched(rep, ALL_CHAN, n(rep.tier, 30, 1000), [1, 2], shapes=("leave",), seed_off=55)
+    t = rep.tier
+    chan_sys(rep, ["mpsc_b", "mpmc_b", "mpmc_rv", "mpsc_u"] + ([] if t == "quick" else ["mpmc_u", "mpsc_rv", "spsc_b", "spsc_rv"]),
+             3, 8, shapes=("leave",), seeds=n(t, (3, 4), (3, 4, 5, 6)), items=2, label="chan-sys-teardown")
     rep.assumptions += CHAN_ASSUME
 
 
@@ -206,6 +299,9 @@ def C07(rep):
     bc = ["spmc_b", "spmc_b_async"]
     chan_seq(rep, bc, n(rep.tier, 60, 800), 70, [1, 2, 3, 5], ["mix", "batch", "close", "async"], seed_off=808, label="spmc-seq")
     chan_sched(rep, bc, n(rep.tier, 120, 3000), [1, 2, 3], seed_off=909, label="spmc-sched")
+    t = rep.tier
+    chan_sys(rep, bc, 3, n(t, 8, 10), caps=(1, 2), producers=1, consumers=2, items=2, shapes=n(t, ("drain",), ("drain", "leave")),
+             label="chan-sys-spmc")
     rep.assumptions += CHAN_ASSUME + ["broadcast payloads are cloned per receiver; only the stored original's destruction is observed (at most once)"]
 
 
